@@ -102,7 +102,29 @@ func initOwners(c *core.Ctx) {
 		ps = append(ps, p.Types)
 	}
 	ssax.IndexFieldOwners(ps)
+	if ipProg != any(c.P) {
+		ipProg = c.P
+		prog := c.P
+		ssax.SetProgram(prog.CallGraph(), func(f *ssa.Function) bool { return f.Pkg != nil && prog.IsLib(f.Pkg.Pkg) })
+		cg := prog.CallGraph()
+		ipCallersOf = func(f *ssa.Function) []*ssa.Function {
+			n := cg.Nodes[f]
+			if n == nil {
+				return nil
+			}
+			var out []*ssa.Function
+			for _, e := range n.In {
+				if call, ok := e.Site.(*ssa.Call); !ok || call.Call.StaticCallee() != f {
+					return nil // dynamic / go / defer use: not a plain private helper
+				}
+				out = append(out, e.Caller.Func)
+			}
+			return out
+		}
+	}
 }
+
+var ipProg any
 
 // errResult returns the SSA value of the error result of call (the last
 // result), or nil.
@@ -225,4 +247,271 @@ func isAPIRoot(f *ssa.Function) bool {
 		return r.Obj().Exported()
 	}
 	return true
+}
+
+// withHelpers returns f followed by its private helpers: the unexported functions and methods of f's own package that
+// f calls statically (transitively, two levels), and anonymous functions it defines. A rule that looks for a construct
+// "in f" looks in these, so that extracting part of f into a helper does not hide the construct.
+func withHelpers(f *ssa.Function) []*ssa.Function {
+	out := []*ssa.Function{f}
+	seen := map[*ssa.Function]bool{f: true}
+	frontier := []*ssa.Function{f}
+	for depth := 0; depth < 2; depth++ {
+		var next []*ssa.Function
+		for _, g := range frontier {
+			for _, call := range ssax.Calls(g) {
+				if _, isGo := call.(*ssa.Go); isGo {
+					continue
+				}
+				h := call.Common().StaticCallee()
+				if h == nil || seen[h] || len(h.Blocks) == 0 || h.Pkg == nil || f.Pkg == nil || h.Pkg != f.Pkg {
+					continue
+				}
+				if o := h.Object(); o != nil && o.Exported() {
+					continue
+				}
+				seen[h] = true
+				out = append(out, h)
+				next = append(next, h)
+			}
+		}
+		frontier = next
+	}
+	return out
+}
+
+// liftTo maps an instruction found in one of f's private helpers to the call instruction in f through which it is
+// reached (the instruction itself if it is in f; nil if no such call exists). Dominance and reachability questions about
+// the construct are then asked, in f, about that call.
+func liftTo(f *ssa.Function, in ssa.Instruction) ssa.Instruction {
+	if in == nil {
+		return nil
+	}
+	if in.Parent() == f {
+		return in
+	}
+	target := in.Parent()
+	for hops := 0; hops < 3 && target != nil; hops++ {
+		for _, call := range ssax.Calls(f) {
+			if call.Common().StaticCallee() == target {
+				return call
+			}
+		}
+		// one level deeper: find a caller of target among f's helpers
+		var up *ssa.Function
+		for _, h := range withHelpers(f)[1:] {
+			for _, call := range ssax.Calls(h) {
+				if call.Common().StaticCallee() == target {
+					up = h
+				}
+			}
+		}
+		if up == nil {
+			return nil
+		}
+		// continue with the call inside `up`
+		for _, call := range ssax.Calls(up) {
+			if call.Common().StaticCallee() == target {
+				in = call
+			}
+		}
+		target = up
+	}
+	return nil
+}
+
+// isPrivateHelper: h is an unexported function or method of the same package as f (with a body).
+func isPrivateHelper(f, h *ssa.Function) bool {
+	if h == nil || h == f || len(h.Blocks) == 0 || h.Pkg == nil || f.Pkg == nil || h.Pkg != f.Pkg {
+		return false
+	}
+	if o := h.Object(); o != nil && o.Exported() {
+		return false
+	}
+	return true
+}
+
+// containsSite: f, or one of its private helpers (two levels), has an instruction satisfying pred.
+func containsSite(f *ssa.Function, pred func(ssa.Instruction) bool, depth int) bool {
+	for _, b := range f.Blocks {
+		for _, in := range b.Instrs {
+			if pred(in) {
+				return true
+			}
+		}
+	}
+	if depth <= 0 {
+		return false
+	}
+	for _, call := range ssax.Calls(f) {
+		if _, isGo := call.(*ssa.Go); isGo {
+			continue
+		}
+		if h := call.Common().StaticCallee(); isPrivateHelper(f, h) && containsSite(h, pred, depth-1) {
+			return true
+		}
+	}
+	return false
+}
+
+// liftedSites lists the instructions of f that satisfy pred, and the calls in f of private helpers that contain
+// (transitively, two levels) an instruction satisfying pred: the construct as seen from f.
+func liftedSites(f *ssa.Function, pred func(ssa.Instruction) bool) []ssa.Instruction {
+	var out []ssa.Instruction
+	for _, b := range f.Blocks {
+		for _, in := range b.Instrs {
+			if pred(in) {
+				out = append(out, in)
+				continue
+			}
+			call, ok := in.(ssa.CallInstruction)
+			if !ok {
+				continue
+			}
+			if _, isGo := call.(*ssa.Go); isGo {
+				continue
+			}
+			if h := call.Common().StaticCallee(); isPrivateHelper(f, h) && containsSite(h, pred, 1) {
+				out = append(out, in)
+			}
+		}
+	}
+	return out
+}
+
+// scopeFor descends from f into a private helper as long as every construct named by preds is, seen from the current
+// function, one and the same helper call (the tail of f was moved into that helper as a whole). The sequencing
+// obligations among the constructs are then decided inside the function returned.
+func scopeFor(f *ssa.Function, preds ...func(ssa.Instruction) bool) *ssa.Function {
+	cur := f
+	for hops := 0; hops < 3; hops++ {
+		var only ssa.Instruction
+		same := true
+		for _, p := range preds {
+			sites := liftedSites(cur, p)
+			if len(sites) == 0 {
+				continue
+			}
+			for _, s := range sites {
+				if only == nil {
+					only = s
+				} else if only != s {
+					same = false
+				}
+			}
+		}
+		if !same || only == nil {
+			return cur
+		}
+		call, ok := only.(ssa.CallInstruction)
+		if !ok {
+			return cur
+		}
+		h := call.Common().StaticCallee()
+		if !isPrivateHelper(cur, h) {
+			return cur
+		}
+		// `only` satisfies a predicate itself (not a helper call): stop
+		direct := false
+		for _, p := range preds {
+			if p(only) {
+				direct = true
+			}
+		}
+		if direct {
+			return cur
+		}
+		cur = h
+	}
+	return cur
+}
+
+// siteIn finds the instruction satisfying pred in f or its private helpers (the real site, for local checks).
+func siteIn(f *ssa.Function, pred func(ssa.Instruction) bool) ssa.Instruction {
+	for _, g := range withHelpers(f) {
+		for _, b := range g.Blocks {
+			for _, in := range b.Instrs {
+				if pred(in) {
+					return in
+				}
+			}
+		}
+	}
+	return nil
+}
+
+// liftOne: the call instruction (in f or one of f's private helpers) that calls helper h directly.
+func liftOne(f, h *ssa.Function) ssa.Instruction {
+	for _, g := range withHelpers(f) {
+		for _, call := range ssax.Calls(g) {
+			if _, isGo := call.(*ssa.Go); isGo {
+				continue
+			}
+			if call.Common().StaticCallee() == h {
+				return call
+			}
+		}
+	}
+	return nil
+}
+
+// isErrorResult: result i of f has type error.
+func isErrorResult(f *ssa.Function, i int) bool {
+	res := f.Signature.Results()
+	return i < res.Len() && res.At(i).Type().String() == "error"
+}
+
+// okEdgeNot: `at` executes only when the error result of call was non-nil (the failing edge of its test).
+func okEdgeNot(at ssa.Instruction, call ssa.CallInstruction) bool {
+	ev := errResult(call)
+	if ev == nil {
+		return false
+	}
+	for _, f := range ssax.FactsAt(at) {
+		if f.Op == token.NEQ && ((ssax.IsNil(f.Y) && denotes(f.X, ev)) || (ssax.IsNil(f.X) && denotes(f.Y, ev))) {
+			return true
+		}
+	}
+	return false
+}
+
+// ownerName names the function a finding is attributed to: for a private helper all of whose callers sit in one
+// function, that function (recursively) — moving code into such a helper does not rename the finding.
+func ownerName(f *ssa.Function) string {
+	cur := f
+	for hops := 0; hops < 3; hops++ {
+		if cur.Parent() != nil {
+			cur = ssax.Outermost(cur)
+		}
+		if o := cur.Object(); o == nil || o.Exported() {
+			break
+		}
+		var single *ssa.Function
+		ok := true
+		n := ipCallers(cur)
+		if len(n) == 0 {
+			break
+		}
+		for _, caller := range n {
+			if single == nil {
+				single = caller
+			} else if single != caller {
+				ok = false
+			}
+		}
+		if !ok || single == nil || single == cur {
+			break
+		}
+		cur = single
+	}
+	return fname(cur)
+}
+
+var ipCallersOf func(f *ssa.Function) []*ssa.Function
+
+func ipCallers(f *ssa.Function) []*ssa.Function {
+	if ipCallersOf == nil {
+		return nil
+	}
+	return ipCallersOf(f)
 }
